@@ -14,6 +14,28 @@ CLAIMED = {
    ref="4/C10", technique="Coq proof (Mergesort uniqueness by Sorted+Permutation) + differential correspondence model vs Runner::run",
    note="Trusted: Coq kernel, extraction (ExtrOcamlBasic), hand-written model of runner.rs:871-914/995-1211 validated by the correspondence run; "
         "Rust String order = code-point order assumed (exercised with non-ASCII values)."),
+ "C01": dict(
+   text="Coq theorems C01_pass_iff_expectation_met, C01_failure_names_the_reason, C01_never_unreachable, C01_verdict: for every record, answer, "
+        "configuration and regex oracle the code-shaped model of apply_record+run_async_no_retry (all 11 match arms incl. the two tolerance arms, "
+        "sort, hash threshold, value-wise flattening, strict/default column check) passes exactly when the declarative expectation rules "
+        "(JudgeSpec.expect_met: Sorted+Permutation arrangement, digest line, Forall2 of normalised lines) hold, and otherwise reports the documented reason. "
+        "Tied to the code by running Runner::run on generated (config, record, answer) triples with ~45% wrong expectations.",
+   ref="4/C01", technique="Coq proof L2 model = declarative spec + differential correspondence vs Runner::run",
+   note="Trusted: Coq kernel; regex is an oracle evaluated by the regex crate; MD5 modelled+validated; shell scripted via AsyncDB::run_command; "
+        "message wording, diff rendering, background commands not modelled."),
+ "C09": dict(
+   text="Coq theorems C09_retry (the loop performs exactly the attempts up to and including the first passing one, one wait of D after each failed attempt, "
+        "verdict/state/output of the last executed attempt), C09_execution_count (= min(first pass, N)), C09_stop_at_first_pass, C09_verdict, C09_no_retry_once, "
+        "for all N, backoffs, states and attempt behaviours (generic in what an attempt does). Correspondence: exhaustive N<=6 x 2^N outcome sequences x 7 forms x 5 backoffs "
+        "through Runner::run with the sleep/run_command hooks logged.",
+   ref="4/C09", technique="Coq proof by induction on the attempt count + exhaustive differential correspondence",
+   note="Trusted: Coq kernel; waits observed via AsyncDB::sleep hook, not wall clock; a wait after the last failed attempt is not constrained."),
+ "C15": dict(
+   text="Coq theorems C15_hash_line (exact digest-line formula over the arranged values), C15_no_hash (boundary is >, T=0 disables), "
+        "C15_count_is_number_of_values, C15_hash_before_flatten, C15_threshold_scope, for all result sets and thresholds. Correspondence: generated result sets up to 200 values of arbitrary UTF-8, "
+        "thresholds around the count, expectation = digest computed by Python hashlib (third implementation).",
+   ref="4/C15", technique="Coq proof about the shaping model (MD5 modelled in Gallina) + differential correspondence incl. hashlib digests",
+   note="Trusted: Coq kernel; MD5 model validated against RFC vectors/hashlib/md-5 crate, not proved against a second formalisation; rectangular answers for the count clause."),
 }
 
 PENDING = "check not built yet in this session (machinery under construction); no claim is made"
